@@ -142,8 +142,7 @@ def run(kind, seq, enumerate_empty_hdf5=False):
             if not _eq(got_j, exp_j):
                 return {"step": step, "probe": p, "what": "jacobian", "got": repr(got_j), "expected": repr(exp_j)}
         # enumeration: the entries in index (insertion) order, len(cache) of them
-        if kind == "HDF5Cache" and not ref.entries and not enumerate_empty_hdf5:
-            continue  # (iterating over an empty HDF5Cache raises AssertionError: known finding, only exercised for get_all_entries / __iter__)
+        # (also for an empty HDF5Cache: the AssertionError of keep_open was repaired by 5ec8a9c; `enumerate_empty_hdf5` is kept for old witnesses)
         got = [(dict(e.inputs), dict(e.outputs) if e.outputs else {}, {k: dict(v) for k, v in e.jacobian.items()} if e.jacobian else {}) for e in cache]
         if len(got) != len(ref.entries) or len(cache) != len(ref.entries):
             return {"step": step, "what": "number of entries", "got": (len(got), len(cache)), "expected": len(ref.entries)}
@@ -228,7 +227,7 @@ def replay(ob, seed=0):
             if want and not any(OPS[i][0] == want for i in seq):
                 continue
             if want != "clear" and any(OPS[i][0] == "clear" for i in seq):
-                continue  # (clear is only exercised for the obligations of clear: HDF5Cache.clear on an empty node is a known finding)
+                continue  # (clear is only exercised for the obligations of clear, to keep the enumeration small)
             enum = ob.func.endswith((".get_all_entries", ".__iter__"))
             try:
                 r = run(kind, seq, enum)
